@@ -292,12 +292,41 @@ def _diff_parse(cfg, fsmode, f, g, mode, text):
     return op
 
 
+def make_diff_sweep(rng, idx):
+    """Systematic part of the C04 search: snippet x line x elementary edit, each as the history
+    S -> e(S) -> S -> e'(e(S)) -> ... under one grammar version."""
+    snips = corpus.SNIPPETS
+    S = snips[idx % len(snips)]
+    k = idx // len(snips)
+    nl = max(1, len(corpus.splitlines(S)))
+    i = k % nl
+    kind = corpus.ELEMENTARY[(k // nl) % len(corpus.ELEMENTARY)]
+    version = corpus.VERSIONS[(k // (nl * len(corpus.ELEMENTARY))) % len(corpus.VERSIONS)]
+    cfg = {'files': ['src/mod.py'], 'grammars': [version], 'cdirs': 1, 'nproc': 1, 'gran': 0.0, 'tick': 0.0,
+           'size_trigger': 600, 'min_survival': 600, 'bufsize': 8192, 'max_write': 0, 'max_read': 0, 'warmup': 3.0,
+           'p_yield': 0.0, 'p_fault': 0.0, 'debug_diff': False, 'sweep': [idx % len(snips), i, kind]}
+    T1 = corpus.elementary(S, i, kind)
+    texts = [S, T1, S, T1]
+    cur = T1
+    for _ in range(3):
+        cur = corpus.elementary(cur, rng.randrange(64), rng.choice(corpus.ELEMENTARY))
+        texts.append(cur)
+    texts.append(S)
+    ops = [_diff_parse(cfg, False, 0, 0, 'diff', t) for t in texts]
+    if rng.random() < 0.3:
+        ops.insert(2, {'k': 'usednames', 'p': 0, 'f': 0, 'g': 0})
+    return {'sim': 'cacheworld', 'profile': 'diff', 'config': cfg, 'init': [None], 'ops': ops}
+
+
 MAKERS = {'stale': make_stale, 'torn': make_torn, 'diff': make_diff}
 
 
 def make_plan(profile, seed, tier='quick'):
     rng = random.Random('%s/%d' % (profile, seed))
-    plan = MAKERS[profile](rng, tier)
+    if profile == 'diff' and seed % 3 == 0:
+        plan = make_diff_sweep(rng, seed // 3)
+    else:
+        plan = MAKERS[profile](rng, tier)
     plan['seed'] = seed
     plan['tier'] = tier
     return plan
